@@ -12,7 +12,7 @@ Sibling cross-check of the assignment tracker (compiler/meta.rs) against the cod
 Not decided: the implicit names (loop, self, super, caller) the tracker pre-assigns.
 """
 from .. import cfg, flow, events, arms, errflow
-from ..facts import norm_path
+from ..facts import norm_path, op_place as op_place_
 
 G = "minijinja::compiler::codegen::CodeGenerator::"
 M = "minijinja::compiler::meta::"
@@ -146,9 +146,33 @@ def run(ctx):
                    "a path through %s returns a set that does not come from find_undeclared (and is not the parse-error "
                    "exit): variables read on that path's templates are omitted" % f.path.split("::")[-1], f.loc)
             # and the walker's result is what is returned (not filtered afterwards)
+            # and the walker's result is what is returned: the return value derives only from find_undeclared (or the
+            # empty set of the parse-error exit), and nothing mutates it on the way
+            src = flow.origins(f, {"cp": {"l": 0}})
+            names = sorted({(o.call.name if o.kind == "call" else o.kind) for o in src})
+            pure = bool(src) and all(o.kind == "call" and (o.call.name == FU or o.call.name.endswith(("HashSet::<T>::new", "HashSet::new", "::default")))
+                                     for o in src) and any(o.kind == "call" and o.call.name == FU for o in src)
+            holders = set()
             for c in f.calls_to(FU):
-                ctx.ob("C18.W4.walk-result-is-returned-unfiltered", tag + f.path, c.dest == {"l": 0},
-                       "the set computed by find_undeclared is post-processed before it is returned", f.where(c.bb))
+                if c.dest is not None and "p" not in c.dest:
+                    holders.add(c.dest["l"])
+            changed = True
+            while changed:
+                changed = False
+                for bb, i, st in f.all_stmts():
+                    if st["k"] == "assign" and "p" not in st["place"] and st["rv"]["k"] == "use":
+                        pl = op_place_(st["rv"]["op"])
+                        if pl is not None and "p" not in pl and pl["l"] in holders and st["place"]["l"] not in holders:
+                            holders.add(st["place"]["l"])
+                            changed = True
+            mutated = []
+            for bb, i, st in f.all_stmts():
+                rv = st.get("rv", {})
+                if rv.get("k") == "ref" and rv.get("mut") and rv["place"].get("l") in holders and rv["place"].get("l") != 0:
+                    mutated.append(f.where(bb))
+            ctx.ob("C18.W4.walk-result-is-returned-unfiltered", tag + f.path, pure and not mutated,
+                   "the returned set derives from %s%s: the set computed by find_undeclared must be returned as it is"
+                   % (names, (" and is mutably borrowed at %s" % mutated) if mutated else ""), f.loc)
         ctx.floor("C18.W4 public entry points of the walker" + tag, n4, 1)
         ia = prog.fn(M + "AssignmentTracker::is_assigned")
         ctx.ob("C18.W3.is_assigned-consults-scopes", tag + ia.path,
